@@ -82,7 +82,7 @@ macro_rules! impl_kernel_f64_for_rq {
         impl Kernel<$t1, f64> for RationalQuadraticKernel {
             fn forward(&self, x: $t1, y: $t1) -> f64 {
                 (1. + (x - y).powi(2) / (2. * self.alpha * self.length_scale.powi(2)))
-                    .powf(self.alpha)
+                    .powf(-self.alpha)
                     * self.var
             }
         }
@@ -118,7 +118,7 @@ macro_rules! impl_kernel_vec_for_rq {
                 let (x, y) = (x.reshape(-1, 1), y.reshape(-1, 1));
                 (1. + (x.powi(2).reshape(-1, 1) + y.powi(2).reshape(1, -1) - 2. * x.dot_t(y))
                     / (2. * self.alpha * self.length_scale.powi(2)))
-                .powf(self.alpha)
+                .powf(-self.alpha)
                     * self.var
             }
         }
